@@ -4,16 +4,18 @@
 # and the repository's own suite shows only the 3 baseline failures with the patch applied.
 set -u
 id="$1"; wt="$2"; name="${3:-$1}"; demoflags="${4:-}"
+# SEEDDIR: sub-directory of the worktree that holds patch.diff / demo.rs / notes.md (default SEED)
+SD="${SEEDDIR:-SEED}"
 dst=/verif/seeded/$name
 mkdir -p "$dst"
 log="$dst/confirm.log"; : > "$log"
 cd "$wt" || exit 2
 export CARGO_NET_OFFLINE=true
 git checkout -q -- . 2>/dev/null
-cp SEED/demo.rs tests/seed_demo.rs
+cp $SD/demo.rs tests/seed_demo.rs
 echo "## demo without patch" >> "$log"
 cargo test --offline $demoflags --test seed_demo >> "$log" 2>&1; rc_clean=$?
-git apply SEED/patch.diff || { echo "patch does not apply" | tee -a "$log"; exit 2; }
+git apply $SD/patch.diff || { echo "patch does not apply" | tee -a "$log"; exit 2; }
 echo "## demo with patch" >> "$log"
 cargo test --offline $demoflags --test seed_demo >> "$log" 2>&1; rc_mut=$?
 rm -f tests/seed_demo.rs
@@ -22,7 +24,7 @@ cargo test --workspace --no-fail-fast --offline > "$dst/suite_with_patch.log" 2>
 failed=$(grep -E "^test .* \.\.\. FAILED" "$dst/suite_with_patch.log" | sed 's/^test //; s/ \.\.\. FAILED//' | sort | tr '\n' ' ')
 passed=$(grep -cE "^test .* \.\.\. ok" "$dst/suite_with_patch.log")
 git checkout -q -- .
-cp SEED/patch.diff "$dst/patch.diff"; cp SEED/demo.rs "$dst/demo.rs"; [ -f SEED/notes.md ] && cp SEED/notes.md "$dst/agent_notes.md"
+cp $SD/patch.diff "$dst/patch.diff"; cp $SD/demo.rs "$dst/demo.rs"; [ -f $SD/notes.md ] && cp $SD/notes.md "$dst/agent_notes.md"
 expected="arith2::redundancy_matching_bug2 arith2::redundancy_matching_bug3 lambda::redundancy_matching_bug "
 ok=false
 if [ $rc_clean -eq 0 ] && [ $rc_mut -ne 0 ] && [ "$failed" = "$expected" ] && [ "$passed" -eq 82 ]; then ok=true; fi
